@@ -4,6 +4,8 @@ CONSTANTS
   Vals <- TraceVals
   MaxLevels = {1, 2, 3, 5, 8}
   RichKeys <- TraceKeys
+  Acts = {}
+  MaxParked = 3
   MaxCommits = 0
   Log <- LogLast
 CONSTRAINT HighWater
